@@ -378,6 +378,23 @@ def piecewise_ops():
                     [raises_iff("rejects-concave", lambda ns: p_eq(ns["pw"].sign, 1), (ValueError,)), post("an-expectation-constraint-with-all-pieces", is_epw)],
                     f"{tag},other={kind}")
 
+        # constructor with numeric pieces among the expressions (several constants, nested collections, 0-d arrays)
+        for shape_name, wrap in (("flat", lambda ps, ks: ps[:1] + ks[:1] + ps[1:] + ks[1:]), ("nested", lambda ps, ks: [ps[0], [ks[0], [ps[1]]], (ks[1],)]),
+                                 ("constants-first", lambda ps, ks: ks + ps)):
+            def setup_k(c, minof=minof, wrap=wrap):
+                ns = _mk_pw(c, 2, minof)
+                ks = [c.fresh_real("k0"), c.fresh_real("k1")]
+                args = wrap(list(ns["pieces0"]), ks)
+                ns["ks"] = ks
+                ns["pwk"] = rsome.minof(*args) if minof else rsome.maxof(*args)
+                return ns
+
+            def doc_k(ns, minof=minof):
+                vals = [views.flat(views.val(p, ns["xbar"]))[0] for p in ns["pieces0"]] + list(ns["ks"])
+                return -views.smax_list([-v for v in vals]) if minof else views.smax_list(vals)
+            run("maxof/minof with constants", setup_k, lambda ns: ns["pwk"],
+                [post("inv", wf), post("denote", lambda ns, res: p_eq(den(res, ns["xbar"]), doc_k(ns)))], f"{tag},{shape_name}")
+
         def setup_mul(c, minof=minof):
             ns = _mk_pw(c, 2, minof)
             ns["r"] = c.fresh_real("r")
